@@ -221,7 +221,11 @@ func (e *Engine) factsOf(conds []*BoolVal) []geZero {
 		if !okA || !okB || !intForm(a) || !intForm(b) {
 			continue
 		}
-		if c.Src != nil && !arithExact(c.Src, e.WordBits, 0) {
+		if c.Exact != nil {
+			if !*c.Exact {
+				continue
+			}
+		} else if c.Src != nil && !arithExact(c.Src, e.WordBits, 0) {
 			continue
 		}
 		switch c.Op {
@@ -433,4 +437,91 @@ func (e *Engine) refutes(conds []*BoolVal, c *BoolVal) bool {
 		}
 	}
 	return true
+}
+
+// exactArith is arithExact with the operand values of the current path: in a
+// signed type of at least 32 bits, x ± y is exact when both operands are small
+// (a constant, a value widened from a narrower type, a length on a 64-bit
+// target) — the case of `len(data) - offset` with a constant offset passed in.
+func (e *Engine) exactArith(st *State, fr *frame, v ssa.Value, depth int) bool {
+	if depth > 12 {
+		return false
+	}
+	switch x := v.(type) {
+	case *ssa.Convert:
+		dw, dsigned, dInt := intTypeInfo(x.Type(), e.WordBits)
+		sw, ssigned, sInt := intTypeInfo(x.X.Type(), e.WordBits)
+		if !dInt || !sInt || !e.exactArith(st, fr, x.X, depth+1) {
+			return false
+		}
+		switch {
+		case dw > sw && (!ssigned || dsigned):
+			return true
+		case dw >= sw && ssigned && !dsigned:
+			return nonnegSource(x.X, depth) || e.knownNonneg(st, fr, x.X)
+		case dw == sw && ssigned == dsigned:
+			return true
+		}
+		return false
+	case *ssa.ChangeType:
+		return e.exactArith(st, fr, x.X, depth+1)
+	case *ssa.UnOp:
+		if x.Op == token.NOT {
+			return e.exactArith(st, fr, x.X, depth+1)
+		}
+		return x.Op == token.MUL
+	case *ssa.BinOp:
+		switch x.Op {
+		case token.EQL, token.NEQ, token.LSS, token.LEQ, token.GTR, token.GEQ:
+			return e.exactArith(st, fr, x.X, depth+1) && e.exactArith(st, fr, x.Y, depth+1)
+		case token.ADD, token.SUB:
+			w, signed, isInt := intTypeInfo(x.Type(), e.WordBits)
+			if !isInt {
+				return false
+			}
+			if !e.exactArith(st, fr, x.X, depth+1) || !e.exactArith(st, fr, x.Y, depth+1) {
+				return false
+			}
+			if x.Op == token.SUB && !signed {
+				return false // an unsigned difference wraps below zero
+			}
+			return w >= 32 && e.smallValue(st, fr, x.X, w) && e.smallValue(st, fr, x.Y, w)
+		case token.AND:
+			return true
+		case token.SHR:
+			return e.exactArith(st, fr, x.X, depth+1)
+		}
+		return false
+	}
+	return true // leaves
+}
+
+// smallValue: |v| is far below 2^(w-1) on this path.
+func (e *Engine) smallValue(st *State, fr *frame, v ssa.Value, w int) bool {
+	limit := new(big.Rat).SetInt(new(big.Int).Lsh(big.NewInt(1), uint(w-2)))
+	if f, ok := e.val(st, fr, v).(*Form); ok {
+		if c, isC := f.Const(); isC {
+			return ratAbs(c).Cmp(limit) < 0
+		}
+	}
+	switch x := v.(type) {
+	case *ssa.Convert:
+		sw, _, sInt := intTypeInfo(x.X.Type(), e.WordBits)
+		return sInt && sw < w-1
+	case *ssa.Call:
+		// len/cap/Len: below 2^(w-2) only on 64-bit targets (no slice is that long)
+		return w >= 64 && nonnegSource(x, 0)
+	}
+	return false
+}
+
+// knownNonneg: the value is a non-negative constant on this path.
+func (e *Engine) knownNonneg(st *State, fr *frame, v ssa.Value) bool {
+	if f, ok := e.val(st, fr, v).(*Form); ok {
+		if c, isC := f.Const(); isC {
+			return c.Sign() >= 0
+		}
+		return e.formNonneg(f)
+	}
+	return false
 }
